@@ -12,122 +12,471 @@ namespace Yalafi
 
 theorem Post_pure {α} (a : α) (st : PState) (Q : α → PState → Prop) (h : Q a st) :
     Post ((pure a : M α) st) Q := by
-  sorry
+  exact h
 
 theorem Post_bind {α β} (x : M α) (f : α → M β) (st : PState) (Q : α → PState → Prop) (R : β → PState → Prop)
     (hx : Post (x st) Q) (hf : ∀ a s, Q a s → Post (f a s) R) : Post ((x >>= f) st) R := by
-  sorry
+  show Post (M.bind' x f st) R
+  unfold M.bind'
+  cases hxs : x st with
+  | ok r =>
+    obtain ⟨a, s⟩ := r
+    rw [hxs] at hx
+    exact hf a s hx
+  | fatal m => trivial
+  | crash c => trivial
+  | outOfFuel => trivial
 
 theorem Post_mono {α} (x : Outcome (α × PState)) (Q R : α → PState → Prop)
     (h : Post x Q) (hi : ∀ a s, Q a s → R a s) : Post x R := by
-  sorry
+  cases x with
+  | ok r => obtain ⟨a, s⟩ := r; exact hi a s h
+  | fatal m => trivial
+  | crash c => trivial
+  | outOfFuel => trivial
 
 theorem Post_get (st : PState) (Q : PState → PState → Prop) (h : Q st st) : Post (M.get st) Q := by
-  sorry
+  exact h
 
 theorem Post_modify (f : PState → PState) (st : PState) (Q : Unit → PState → Prop) (h : Q () (f st)) :
     Post (M.modify f st) Q := by
-  sorry
+  exact h
 
 theorem Post_crash {α} (site : String) (st : PState) (Q : α → PState → Prop) : Post ((M.crash site : M α) st) Q := by
-  sorry
+  trivial
 
 theorem Post_fatal {α} (msg : Str) (st : PState) (Q : α → PState → Prop) : Post ((M.fatal msg : M α) st) Q := by
-  sorry
+  trivial
 
 theorem Post_outOfFuel {α} (st : PState) (Q : α → PState → Prop) : Post ((M.outOfFuel : M α) st) Q := by
-  sorry
+  trivial
 
 theorem Post_catchAll {α} (x : M α) (msg : Str) (st : PState) (Q : α → PState → Prop) (h : Post (x st) Q) :
     Post (catchAll x msg st) Q := by
-  sorry
+  unfold catchAll
+  cases hxs : x st with
+  | ok r => rw [hxs] at h; exact h
+  | fatal m => trivial
+  | crash c => trivial
+  | outOfFuel => trivial
 
 /-! ### token predicates -/
 
 variable (T : PTables)
 
 theorem OTok_BTok (n : Nat) (t : Tok) (h : OTok T n t) : BTok T n t := by
-  sorry
+  refine ⟨h.1, ?_⟩
+  have := h.2
+  unfold outKind at this
+  unfold isMathTok
+  split <;> simp_all
 
 theorem OL_BL (n : Nat) (ts : List Tok) (h : OL T n ts) : BL T n ts := by
-  sorry
+  exact fun t ht => OTok_BTok T n t (h t ht)
 
 theorem BL_append (n : Nat) (a b : List Tok) : BL T n (a ++ b) ↔ BL T n a ∧ BL T n b := by
-  sorry
+  unfold BL
+  simp only [List.mem_append]
+  exact ⟨fun h => ⟨fun t ht => h t (Or.inl ht), fun t ht => h t (Or.inr ht)⟩,
+    fun h t ht => ht.elim (h.1 t) (h.2 t)⟩
 
 theorem OL_append (n : Nat) (a b : List Tok) : OL T n (a ++ b) ↔ OL T n a ∧ OL T n b := by
-  sorry
+  unfold OL
+  simp only [List.mem_append]
+  exact ⟨fun h => ⟨fun t ht => h t (Or.inl ht), fun t ht => h t (Or.inr ht)⟩,
+    fun h t ht => ht.elim (h.1 t) (h.2 t)⟩
 
 theorem OTok_mkAction (n p : Nat) (h : p < n) : OTok T n (mkAction p) := by
-  sorry
+  refine ⟨⟨h, ?_, rfl, rfl⟩, rfl⟩
+  intro _; simp [mkAction, extent]; omega
 
 theorem OTok_mkVoid (n p : Nat) (h : p < n) : OTok T n (mkVoid p) := by
-  sorry
+  refine ⟨⟨h, ?_, rfl, rfl⟩, rfl⟩
+  intro _; simp [mkVoid, extent]; omega
 
 /-- fixed text/space/paragraph tokens anchored inside the text are output tokens -/
 theorem OTok_mkFix (n p : Nat) (k : Kind) (txt : Str) (h : p < n)
     (hk : k = .text ∨ k = .space ∨ k = .par) : OTok T n (mkFix k p txt) := by
-  sorry
+  rcases hk with rfl | rfl | rfl <;>
+    exact ⟨⟨h, fun hf => by simp [mkFix] at hf, rfl, rfl⟩, rfl⟩
 
 theorem OTok_mkLang (n p : Nat) (l : Str) (b h k : Bool) (hp : p < n) : OTok T n (mkLang p l b h k) := by
-  sorry
+  refine ⟨⟨hp, ?_, rfl, rfl⟩, rfl⟩
+  intro _; simp [mkLang, extent]; omega
 
 /-- a one-character position-counting text or space token at an anchor -/
 theorem OTok_mkTok1 (n p : Nat) (k : Kind) (c : Char) (h : p < n) (hk : k = .text ∨ k = .space) :
     OTok T n (mkTok k p [c]) := by
-  sorry
+  rcases hk with rfl | rfl <;>
+    exact ⟨⟨h, fun _ => by simp [mkTok, extent]; omega, rfl, rfl⟩, rfl⟩
 
 /-- re-stamping: a stored token pinned to an anchor is a buffer token -/
 theorem BTok_restamp (n p : Nat) (t : Tok) (hs : storedOk T t = true) (hp : p < n) :
     BTok T n { t with pos := p, fix := true } := by
-  sorry
+  simp only [storedOk, Bool.and_eq_true, Bool.not_eq_eq_eq_not, Bool.not_true] at hs
+  exact ⟨⟨hp, fun hf => by simp at hf, hs.1.2, hs.2⟩, hs.1.1⟩
 
 theorem BTok_storedOk (n : Nat) (t : Tok) (h : BTok T n t) : storedOk T t = true := by
-  sorry
+  simp only [storedOk, Bool.and_eq_true, Bool.not_eq_eq_eq_not, Bool.not_true]
+  exact ⟨⟨h.2, h.1.2.2.1⟩, h.1.2.2.2⟩
+
+theorem extent_outKind (t : Tok) (h : outKind t = true) : extent T t = t.txt.length := by
+  unfold outKind at h
+  unfold extent
+  split <;> simp_all
+
+theorem isLang_extent (t : Tok) (h : isLang t = true) : extent T t = t.txt.length := by
+  unfold isLang at h
+  unfold extent
+  split <;> simp_all
+
+theorem isLang_outKind (t : Tok) (h : isLang t = true) : outKind t = true := by
+  unfold isLang at h
+  unfold outKind
+  split <;> simp_all
+
+theorem isLang_notMath (t : Tok) (h : isLang t = true) : isMathTok t = false := by
+  unfold isLang at h
+  unfold isMathTok
+  split <;> simp_all
+
+theorem isLang_mbOk (t : Tok) (h : isLang t = true) : mbOk T t = true := by
+  unfold isLang at h
+  unfold mbOk
+  split <;> simp_all
+
+/-- a language token without text, placed at an anchor -/
+theorem OTok_lang_at (n p : Nat) (t : Tok) (hl : isLang t = true) (ht : t.txt = []) (hp : p < n) :
+    OTok T n { t with pos := p } := by
+  have hl' : isLang { t with pos := p } = true := hl
+  refine ⟨⟨hp, fun _ => ?_, ?_, isLang_mbOk T _ hl'⟩, isLang_outKind _ hl'⟩
+  · rw [isLang_extent T _ hl']; simp [ht]; omega
+  · unfold ctlEmpty; split <;> simp [ht]
+
+theorem BL_sublist (n : Nat) (a b : List Tok) (hs : a.Sublist b) (h : BL T n b) : BL T n a :=
+  fun t ht => h t (hs.subset ht)
 
 /-- an output token with text is in range in the sense of `getTxtPos_range` -/
 theorem OTok_inRange (n : Nat) (t : Tok) (h : OTok T n t) : TokInRange n t := by
-  sorry
+  refine ⟨h.1.1, fun hf => ?_⟩
+  have := h.1.2.1 hf
+  rw [extent_outKind T t h.2] at this
+  exact this
 
 theorem BL_skipSpace (n : Nat) (b : Buf) (h : BL T n b) : BL T n (skipSpace b) := by
-  sorry
+  exact BL_sublist T n _ _ (List.dropWhile_sublist _) h
 
 theorem BL_filterSetToks (n p : Nat) (ts : List Tok) (hp : p < n) (h : ∀ t ∈ ts, isLang t = true ∧ t.txt = []) :
     BL T n (filterSetToks ts p false) := by
-  sorry
+  intro t ht
+  simp only [filterSetToks, List.mem_map, List.mem_filter] at ht
+  obtain ⟨u, ⟨hu, _⟩, rfl⟩ := ht
+  exact OTok_BTok T n _ (OTok_lang_at T n p u (h u hu).1 (h u hu).2 hp)
 
 /-- language tokens of any output list, re-positioned to an anchor -/
 theorem BL_filterSetToks_lang (n m p : Nat) (ts : List Tok) (hp : p < n) (h : OL T m ts) :
     BL T n (filterSetToks ts p true) := by
-  sorry
+  intro t ht
+  simp only [filterSetToks, List.mem_map, List.mem_filter] at ht
+  obtain ⟨u, ⟨hu, hl⟩, rfl⟩ := ht
+  have hl' : isLang u = true := by simpa using hl
+  have hc := (h u hu).1.2.2.1
+  have : u.txt = [] := by
+    unfold isLang at hl'
+    unfold ctlEmpty at hc
+    split at hc <;> simp_all
+  exact OTok_BTok T n _ (OTok_lang_at T n p u hl' this hp)
 
 /-! ### error marks -/
+
+theorem Basic_OTok_fixText (n p : Nat) (txt : Str) (h : p < n) :
+    OTok T n { kind := .text, pos := p, txt := txt, fix := true } :=
+  OTok_mkFix T n p .text txt h (Or.inl rfl)
+
+theorem latexErrorToks_OL (err : Str) (pos n : Nat) (hp : pos < n) :
+    OL T n (latexErrorToks T.toTables err pos n) := by
+  intro t ht
+  unfold latexErrorToks at ht
+  simp only [] at ht
+  split at ht
+  · rename_i hlt
+    simp only [List.mem_cons, List.not_mem_nil, or_false] at ht
+    rcases ht with rfl | rfl
+    · exact Basic_OTok_fixText T n pos _ hp
+    · exact Basic_OTok_fixText T n _ _ (by omega)
+  · simp only [List.mem_cons, List.not_mem_nil, or_false] at ht
+    subst ht
+    exact Basic_OTok_fixText T n pos _ hp
 
 /-- `latex_error` at a position inside the current text yields fixed output tokens and
     changes only the diagnostics -/
 theorem latexError_spec (hw : T.WFInv) (err : Str) (pos : Nat) (st : PState) (hp : pos < st.latex.length) :
     Post (latexError T.toTables err pos st) (fun r st' =>
       OL T st.latex.length r ∧ st' = { st with diags := st'.diags }) := by
-  sorry
+  have _ := hw
+  exact ⟨latexErrorToks_OL T err pos _ hp, rfl⟩
 
 /-- changing only the diagnostics keeps every invariant -/
 theorem G_diags (nroot : Nat) (st : PState) (d : List Diag) (h : G T nroot st) :
     G T nroot { st with diags := d } := by
-  sorry
+  exact { flows := h.flows, macros := h.macros, envs := h.envs, gloss := h.gloss,
+          root := h.root, inFrame := h.inFrame }
 
 /-! ### argument collection -/
+
+def nextLev (lev : Int) (t : Tok) : Int :=
+  if txtIs t "}" then (if txtIs t "{" then lev + 1 else lev) - 1 else (if txtIs t "{" then lev + 1 else lev)
+
+theorem collectArg_cons (endTxt : Str) (lev : Int) (t : Tok) (ts acc : List Tok) :
+    collectArg endTxt lev (t :: ts) acc =
+      if (t.txt == endTxt && nextLev lev t == 0) = true then some (acc.reverse, ts)
+      else collectArg endTxt (nextLev lev t) ts (t :: acc) := rfl
+
+theorem collectArg_mem (endTxt : Str) : ∀ (buf : Buf) (lev : Int) (acc out rest' : List Tok),
+    collectArg endTxt lev buf acc = some (out, rest') →
+    (∀ t ∈ out, t ∈ acc ∨ t ∈ buf) ∧ (∀ t ∈ rest', t ∈ buf) := by
+  intro buf
+  induction buf with
+  | nil => intro lev acc out rest' h; simp [collectArg] at h
+  | cons t ts ih =>
+    intro lev acc out rest' h
+    have A : some (acc.reverse, ts) = some (out, rest') →
+        (∀ x ∈ out, x ∈ acc ∨ x ∈ t :: ts) ∧ (∀ x ∈ rest', x ∈ t :: ts) := by
+      intro h
+      simp only [Option.some.injEq, Prod.mk.injEq] at h
+      obtain ⟨rfl, rfl⟩ := h
+      exact ⟨fun x hx => Or.inl (by simpa using hx), fun x hx => by simp [hx]⟩
+    have B : ∀ lev', collectArg endTxt lev' ts (t :: acc) = some (out, rest') →
+        (∀ x ∈ out, x ∈ acc ∨ x ∈ t :: ts) ∧ (∀ x ∈ rest', x ∈ t :: ts) := by
+      intro lev' h
+      obtain ⟨i1, i2⟩ := ih _ _ _ _ h
+      refine ⟨fun x hx => ?_, fun x hx => by simp [i2 x hx]⟩
+      rcases i1 x hx with h' | h'
+      · simp only [List.mem_cons] at h'
+        rcases h' with rfl | h'
+        · exact Or.inr (by simp)
+        · exact Or.inl h'
+      · exact Or.inr (by simp [h'])
+    rw [collectArg_cons] at h
+    split at h
+    · exact A h
+    · exact B _ h
+
+theorem Basic_BL_cons (n : Nat) (t : Tok) (ts : List Tok) : BL T n (t :: ts) ↔ BTok T n t ∧ BL T n ts := by
+  unfold BL
+  simp only [List.mem_cons]
+  exact ⟨fun h => ⟨h t (Or.inl rfl), fun x hx => h x (Or.inr hx)⟩,
+    fun h x hx => hx.elim (fun e => e ▸ h.1) (h.2 x)⟩
+
+theorem Basic_BL_nil (n : Nat) : BL T n [] := fun _ h => by cases h
+
+theorem BL_single (n : Nat) (t : Tok) (h : BTok T n t) : BL T n [t] := by
+  intro x hx; simp at hx; subst hx; exact h
+
+theorem Basic_OL_cons (n : Nat) (t : Tok) (ts : List Tok) : OL T n (t :: ts) ↔ OTok T n t ∧ OL T n ts := by
+  unfold OL
+  simp only [List.mem_cons]
+  exact ⟨fun h => ⟨h t (Or.inl rfl), fun x hx => h x (Or.inr hx)⟩,
+    fun h x hx => hx.elim (fun e => e ▸ h.1) (h.2 x)⟩
+
+theorem Basic_OL_nil (n : Nat) : OL T n [] := fun _ h => by cases h
+
+theorem OL_single (n : Nat) (t : Tok) (h : OTok T n t) : OL T n [t] := by
+  intro x hx; simp at hx; subst hx; exact h
+
+theorem argBufferPure_spec (n : Nat) (mark : Str) (buf : Buf) (start : Nat) (endBrace : Bool)
+    (hb : BL T n buf) (hs : start < n) :
+    BL T n (argBufferPure mark buf start endBrace).arg ∧ (argBufferPure mark buf start endBrace).arg ≠ [] ∧
+    BL T n (argBufferPure mark buf start endBrace).buf ∧
+    (∀ e, (argBufferPure mark buf start endBrace).err = some e → (argBufferPure mark buf start endBrace).errPos < n) := by
+  have hsk := BL_skipSpace T n buf hb
+  unfold argBufferPure
+  split
+  · exact ⟨BL_single T n _ (OTok_BTok T n _ (OTok_mkVoid T n start hs)), by simp, Basic_BL_nil T n, by simp⟩
+  · rename_i tok rest heq
+    rw [heq, Basic_BL_cons] at hsk
+    obtain ⟨htok, hrest⟩ := hsk
+    have hpos : tok.pos < n := htok.1.1
+    split
+    · exact ⟨BL_single T n _ (OTok_BTok T n _ (OTok_mkVoid T n _ hpos)), by simp,
+        (Basic_BL_cons T n _ _).2 ⟨htok, hrest⟩, by simp⟩
+    · split
+      · exact ⟨BL_single T n _ htok, by simp, hrest, by simp⟩
+      · simp only []
+        split
+        · rename_i out rest' hc
+          obtain ⟨m1, m2⟩ := collectArg_mem _ _ _ _ _ _ hc
+          refine ⟨?_, ?_, fun x hx => hrest x (m2 x hx), by simp⟩
+          · split
+            · exact BL_single T n _ (OTok_BTok T n _ (OTok_mkVoid T n _ hpos))
+            · intro x hx
+              rcases m1 x hx with h' | h'
+              · cases h'
+              · exact hrest x h'
+          · split
+            · simp
+            · rename_i hne
+              show out ≠ []
+              intro e; rw [e] at hne; simp at hne
+        · refine ⟨BL_single T n _ (OTok_BTok T n _ (OTok_mkFix T n _ .text _ hpos (Or.inl rfl))), by simp,
+            (Basic_BL_cons T n _ _).2 ⟨htok, hrest⟩, ?_⟩
+          intro e _; exact hpos
 
 theorem argBuffer_spec (hw : T.WFInv) (buf : Buf) (start : Nat) (endBrace : Bool) (st : PState)
     (hb : BL T st.latex.length buf) (hs : start < st.latex.length) :
     Post (argBuffer T.toTables buf start endBrace st) (fun r st' =>
       BL T st.latex.length r.1 ∧ r.1 ≠ [] ∧ BL T st.latex.length r.2 ∧ st' = { st with diags := st'.diags }) := by
-  sorry
+  obtain ⟨h1, h2, h3, h4⟩ := argBufferPure_spec T st.latex.length T.mark buf start endBrace hb hs
+  simp only [argBuffer]
+  generalize argBufferPure T.mark buf start endBrace = r at *
+  obtain ⟨arg, rbuf, err, errPos⟩ := r
+  simp only [] at h1 h2 h3 h4 ⊢
+  cases err with
+  | none => exact ⟨h1, h2, h3, rfl⟩
+  | some e =>
+    simp only []
+    apply Post_bind _ _ _ _ _ (latexError_spec T hw e _ st (h4 e rfl))
+    intro errToks s ⟨ho, hs'⟩
+    have hbl := OL_BL T _ _ ho
+    cases rbuf with
+    | nil => exact ⟨h1, h2, hbl, hs'⟩
+    | cons opening collected =>
+      rw [Basic_BL_cons] at h3
+      refine ⟨h1, h2, ?_, hs'⟩
+      show BL T _ (opening :: (errToks ++ collected))
+      rw [Basic_BL_cons, BL_append]
+      exact ⟨h3.1, hbl, h3.2⟩
 
 theorem parseNewlineOption_spec (hw : T.WFInv) (buf : Buf) (skip : Bool) (st : PState)
     (hb : BL T st.latex.length buf) :
     Post (parseNewlineOption T buf skip st) (fun r st' =>
       BL T st.latex.length r ∧ st' = { st with diags := st'.diags }) := by
-  sorry
+  simp only [parseNewlineOption]
+  have hb1 : BL T st.latex.length (if skip = true then (match lookAhead buf with
+                            | some t => if txtIs t "[" = true then skipSpace buf else buf
+                            | none => buf) else buf) := by
+    split
+    · split
+      · split
+        · exact BL_skipSpace T _ _ hb
+        · exact hb
+      · exact hb
+    · exact hb
+  generalize (if skip = true then (match lookAhead buf with
+                            | some t => if txtIs t "[" = true then skipSpace buf else buf
+                            | none => buf) else buf) = buf1 at hb1
+  cases buf1 with
+  | nil => exact ⟨hb1, rfl⟩
+  | cons t tail =>
+    simp only []
+    split
+    · apply Post_bind _ _ _ _ _ (argBuffer_spec T hw _ t.pos false st hb1 (hb1 t (by simp)).1.1)
+      intro r s ⟨_, _, h3, h4⟩
+      exact ⟨h3, h4⟩
+    · exact ⟨hb1, rfl⟩
+
+/-- only the diagnostics changed -/
+def DiagsOnly (st st' : PState) : Prop := st' = { st with diags := st'.diags }
+
+theorem DiagsOnly.refl (st : PState) : DiagsOnly st st := rfl
+
+theorem DiagsOnly.latex {a b : PState} (h : DiagsOnly a b) : b.latex = a.latex := by
+  unfold DiagsOnly at h; rw [h]
+
+theorem DiagsOnly.trans {a b c : PState} (h1 : DiagsOnly a b) (h2 : DiagsOnly b c) : DiagsOnly a c := by
+  unfold DiagsOnly at *
+  rw [h2]; simp only []; rw [h1]
+
+def ArgsOk (n : Nat) (acc : Args) : Prop := (∀ a ∈ acc.args, BL T n a) ∧ (∀ a ∈ acc.extr, BL T n a)
+
+theorem ArgsOk_push (n : Nat) (acc : Args) (a e : List Tok) (h : ArgsOk T n acc) (ha : BL T n a) (he : BL T n e) :
+    ArgsOk T n { args := acc.args ++ [a], extr := acc.extr ++ [e] } := by
+  constructor
+  · intro x hx
+    simp only [List.mem_append, List.mem_cons, List.not_mem_nil, or_false] at hx
+    rcases hx with hx | rfl
+    · exact h.1 x hx
+    · exact ha
+  · intro x hx
+    simp only [List.mem_append, List.mem_cons, List.not_mem_nil, or_false] at hx
+    rcases hx with hx | rfl
+    · exact h.2 x hx
+    · exact he
+
+theorem collectArgs_aux (hw : T.WFInv) (mac : MacroDef) (hm : macroToksOk T mac = true) (n : Nat) :
+    ∀ (codes : List Char) (k : Nat) (buf : Buf) (pos : Nat) (acc : Args) (st : PState),
+    st.latex.length = n → BL T n buf → pos < n → ArgsOk T n acc →
+    Post (collectArgs T mac codes k buf pos acc st) (fun r st' =>
+      (∀ a ∈ r.1.args, BL T n a) ∧ (∀ a ∈ r.1.extr, BL T n a) ∧ BL T n r.2 ∧ DiagsOnly st st') := by
+  intro codes
+  induction codes with
+  | nil =>
+    intro k buf pos acc st hn hb hp ha
+    exact ⟨ha.1, ha.2, hb, rfl⟩
+  | cons code codes ih =>
+    intro k buf pos acc st hn hb hp ha
+    have hsk := BL_skipSpace T n buf hb
+    simp only [collectArgs]
+    generalize skipSpace buf = b at hsk ⊢
+    have hvoid : ∀ p, p < n → BL T n [mkVoid p] :=
+      fun p hp => BL_single T n _ (OTok_BTok T n _ (OTok_mkVoid T n p hp))
+    have hdflt : ∀ p, p < n → BL T n (match mac.defaults[k]? with
+        | some d => d.map (fun t => { t with pos := p, fix := true })
+        | none => []) := by
+      intro p hp'
+      split
+      · rename_i d hd
+        intro x hx
+        simp only [List.mem_map] at hx
+        obtain ⟨u, hu, rfl⟩ := hx
+        refine BTok_restamp T n _ u ?_ hp'
+        simp only [macroToksOk, Bool.and_eq_true, List.all_eq_true] at hm
+        exact hm.1.2 d (List.mem_of_getElem? hd) u hu
+      · exact Basic_BL_nil T n
+    -- the continuation after `argBuffer`
+    have hcont : ∀ (eb : Bool) (p : Nat), p < n →
+        Post ((argBuffer T.toTables b p eb >>= fun r =>
+          collectArgs T mac codes (k + 1) r.2 p { args := acc.args ++ [r.1], extr := acc.extr ++ [r.1] }) st)
+          (fun r st' => (∀ a ∈ r.1.args, BL T n a) ∧ (∀ a ∈ r.1.extr, BL T n a) ∧ BL T n r.2 ∧
+            DiagsOnly st st') := by
+      intro eb p hp'
+      subst hn
+      apply Post_bind _ _ _ _ _ (argBuffer_spec T hw b p eb st hsk hp')
+      intro r s ⟨h1, _, h3, h4⟩
+      have h4' : DiagsOnly st s := h4
+      refine Post_mono _ _ _ (ih (k + 1) r.2 p _ s (by rw [h4'.latex]) h3 hp'
+        (ArgsOk_push T _ acc _ _ ha h1 h1)) ?_
+      intro a s' ⟨q1, q2, q3, q4⟩
+      exact ⟨q1, q2, q3, h4'.trans q4⟩
+    have hnil := ArgsOk_push T n acc _ _ ha (Basic_BL_nil T n) (Basic_BL_nil T n)
+    cases htok : b.head? with
+    | none =>
+      simp only [Bool.false_eq_true, if_false]
+      split
+      · exact ih _ _ _ _ st hn hsk hp hnil
+      · split
+        · exact ih _ _ _ _ st hn hsk hp (ArgsOk_push T n acc _ _ ha (hdflt _ hp) (Basic_BL_nil T n))
+        · split
+          · exact hcont true _ hp
+          · exact Post_fatal _ _ _
+    | some t =>
+      have htb : BTok T n t := hsk t (List.mem_of_mem_head? htok)
+      have hpos : t.pos < n := htb.1.1
+      simp only []
+      split
+      · split
+        · exact ih _ _ _ _ st hn (BL_sublist T n _ _ (List.tail_sublist _) hsk) hpos
+            (ArgsOk_push T n acc _ _ ha (BL_single T n _ htb) (BL_single T n _ htb))
+        · exact ih _ _ _ _ st hn hsk hpos hnil
+      · split
+        · split
+          · exact hcont false _ hpos
+          · exact ih _ _ _ _ st hn hsk hpos (ArgsOk_push T n acc _ _ ha (hdflt _ hpos) (Basic_BL_nil T n))
+        · split
+          · split
+            · exact ih _ _ _ _ st hn hsk hpos (ArgsOk_push T n acc _ _ ha (hvoid _ hpos) (hvoid _ hpos))
+            · exact hcont true _ hpos
+          · exact Post_fatal _ _ _
 
 theorem collectArgs_spec (hw : T.WFInv) (mac : MacroDef) (codes : List Char) (k : Nat) (buf : Buf) (pos : Nat)
     (acc : Args) (st : PState)
@@ -136,49 +485,642 @@ theorem collectArgs_spec (hw : T.WFInv) (mac : MacroDef) (codes : List Char) (k 
     Post (collectArgs T mac codes k buf pos acc st) (fun r st' =>
       (∀ a ∈ r.1.args, BL T st.latex.length a) ∧ (∀ a ∈ r.1.extr, BL T st.latex.length a) ∧
       BL T st.latex.length r.2 ∧ st' = { st with diags := st'.diags }) := by
-  sorry
+  exact collectArgs_aux T hw mac hm st.latex.length codes k buf pos acc st rfl hb hp ha
+
+theorem pyIndex_mem {α} (xs : List α) (k : Nat) (a : α) (h : pyIndex xs k = some a) : a ∈ xs := by
+  unfold pyIndex at h
+  split at h
+  · exact List.mem_of_getLast? h
+  · exact List.mem_of_getElem? h
+
+theorem initCurPos_lt (n : Nat) (arguments : List (List Tok)) (ha : ∀ a ∈ arguments, BL T n a) :
+    ∀ (repls : List Tok) (cur c : Nat), cur < n → initCurPos arguments repls cur = some c → c < n := by
+  intro repls
+  induction repls with
+  | nil => intro cur c hc h; simp only [initCurPos, Option.some.injEq] at h; omega
+  | cons t ts ih =>
+    intro cur c hc h
+    simp only [initCurPos] at h
+    split at h
+    · exact ih _ _ hc h
+    · split at h
+      · cases h
+      · rename_i a hpa
+        refine ih _ _ ?_ h
+        split
+        · rename_i hd hh
+          exact (ha a (pyIndex_mem _ _ _ hpa) hd (List.mem_of_mem_head? hh)).1.1
+        · exact hc
+
+theorem genReplLoop_BL (n : Nat) (arguments : List (List Tok)) (ha : ∀ a ∈ arguments, BL T n a) :
+    ∀ (repls : List Tok) (cur : Nat) (out res : List Tok), cur < n → BL T n out →
+      (∀ t ∈ repls, storedOk T t = true) → genReplLoop arguments repls cur out = some res → BL T n res := by
+  intro repls
+  induction repls with
+  | nil => intro cur out res _ ho _ h; simp only [genReplLoop, Option.some.injEq] at h; subst h; exact ho
+  | cons t ts ih =>
+    intro cur out res hc ho hr h
+    have hr' : ∀ x ∈ ts, storedOk T x = true := fun x hx => hr x (by simp [hx])
+    simp only [genReplLoop] at h
+    split at h
+    · split at h
+      · cases h
+      · rename_i a hpa
+        have hba := ha a (pyIndex_mem _ _ _ hpa)
+        split at h
+        · rename_i hd l hh hl
+          have h1 := (hba hd (List.mem_of_mem_head? hh)).1.1
+          have h2 := (hba l (List.mem_of_getLast? hl)).1.1
+          refine ih _ _ _ h2 ?_ hr' h
+          rw [BL_append, BL_append, BL_append]
+          exact ⟨⟨⟨ho, BL_single T n _ (OTok_BTok T n _ (OTok_mkAction T n _ h1))⟩, hba⟩,
+            BL_single T n _ (OTok_BTok T n _ (OTok_mkAction T n _ h2))⟩
+        · exact ih _ _ _ hc ho hr' h
+    · refine ih _ _ _ hc ?_ hr' h
+      rw [BL_append]
+      exact ⟨ho, BL_single T n _ (BTok_restamp T n cur t (hr t (by simp)) hc)⟩
 
 /-- replacement generation: arguments are copied, body tokens are pinned to anchors -/
 theorem generateReplacements_BL (n : Nat) (arguments : List (List Tok)) (repls : List Tok) (start : Nat)
     (out : List Tok) (ha : ∀ a ∈ arguments, BL T n a) (hr : ∀ t ∈ repls, storedOk T t = true) (hs : start < n)
     (h : generateReplacements arguments repls start = some out) : BL T n out := by
-  sorry
+  unfold generateReplacements at h
+  split at h
+  · cases h
+  · rename_i cur hc
+    exact genReplLoop_BL T n arguments ha repls cur [] out (initCurPos_lt T n arguments ha repls start cur hs hc)
+      (Basic_BL_nil T n) hr h
+
+theorem defArgs_mem : ∀ (fuel : Nat) (buf : Buf) (acc args : List Tok) (buf1 : Buf),
+    defArgs fuel buf acc = some (args, buf1) →
+    (∀ t ∈ args, t ∈ acc ∨ t ∈ buf) ∧ (∀ t ∈ buf1, t ∈ buf) := by
+  intro fuel
+  induction fuel with
+  | zero => intro buf acc args buf1 h; simp [defArgs] at h
+  | succ fuel ih =>
+    intro buf acc args buf1 h
+    simp only [defArgs] at h
+    have hsub : ∀ x ∈ skipSpace buf, x ∈ buf := fun x hx => (List.dropWhile_sublist _).subset hx
+    split at h
+    · cases h
+    · rename_i t rest heq
+      rw [heq] at hsub
+      split at h
+      · simp only [Option.some.injEq, Prod.mk.injEq] at h
+        obtain ⟨rfl, rfl⟩ := h
+        exact ⟨fun x hx => Or.inl (by simpa using hx), hsub⟩
+      · obtain ⟨i1, i2⟩ := ih _ _ _ _ h
+        refine ⟨fun x hx => ?_, fun x hx => hsub x (by simp [i2 x hx])⟩
+        rcases i1 x hx with h' | h'
+        · simp only [List.mem_cons] at h'
+          rcases h' with rfl | h'
+          · exact Or.inr (hsub _ (by simp))
+          · exact Or.inl h'
+        · exact Or.inr (hsub x (by simp [h']))
+
+theorem defArgPosMap_err : ∀ (ts : List Tok) (k n : Nat) (acc : List Nat) (t : Tok),
+    defArgPosMap ts k n acc = .error t → t ∈ ts := by
+  intro ts
+  induction ts with
+  | nil => intro k n acc t h; simp [defArgPosMap] at h
+  | cons u us ih =>
+    intro k n acc t h
+    simp only [defArgPosMap] at h
+    split at h
+    · split at h
+      · simp only [Except.error.injEq] at h; simp [h]
+      · simp [ih _ _ _ _ h]
+    · simp [ih _ _ _ _ h]
+
+theorem storedOk_arg (t : Tok) (k : Nat) (_h : storedOk T t = true) (ha : argRef t ≠ none) :
+    storedOk T { t with kind := .arg k } = true := by
+  unfold argRef at ha
+  split at ha
+  · rename_i n hk
+    simp only [storedOk, isMathTok, ctlEmpty, mbOk]
+    rfl
+  · exact absurd rfl ha
+
+theorem defMapRepl_spec (map : List Nat) : ∀ (ts acc : List Tok),
+    (∀ t ∈ ts, storedOk T t = true) → (∀ t ∈ acc, storedOk T t = true) →
+    (∀ t, defMapRepl map ts acc = .error t → t ∈ ts) ∧
+    (∀ r, defMapRepl map ts acc = .ok r → ∀ t ∈ r, storedOk T t = true) := by
+  intro ts
+  induction ts with
+  | nil =>
+    intro acc _ ha
+    refine ⟨fun t h => ?_, fun r h => ?_⟩
+    · simp [defMapRepl] at h
+    · simp only [defMapRepl, Except.ok.injEq] at h
+      subst h
+      intro t ht; exact ha t (by simpa using ht)
+  | cons u us ih =>
+    intro acc hts ha
+    have hus : ∀ t ∈ us, storedOk T t = true := fun t ht => hts t (by simp [ht])
+    simp only [defMapRepl]
+    split
+    · rename_i a hau
+      split
+      · exact ⟨fun t h => by simp only [Except.error.injEq] at h; simp [h], fun r h => by cases h⟩
+      · have := ih ({ u with kind := .arg (map.getD (a - 1) 0) } :: acc) hus (by
+          intro t ht
+          simp only [List.mem_cons] at ht
+          rcases ht with rfl | ht
+          · exact storedOk_arg T u _ (hts u (by simp)) (by rw [hau]; simp)
+          · exact ha t ht)
+        exact ⟨fun t h => by simp [this.1 t h], this.2⟩
+    · have := ih (u :: acc) hus (by
+        intro t ht
+        simp only [List.mem_cons] at ht
+        rcases ht with rfl | ht
+        · exact hts _ (by simp)
+        · exact ha t ht)
+      exact ⟨fun t h => by simp [this.1 t h], this.2⟩
+
+theorem setMacro_mem (ms : List MacroDef) (m x : MacroDef) (h : x ∈ setMacro ms m) : x ∈ ms ∨ x = m := by
+  unfold setMacro at h
+  split at h
+  · simp only [List.mem_map] at h
+    obtain ⟨y, hy, rfl⟩ := h
+    split
+    · exact Or.inr rfl
+    · exact Or.inl hy
+  · simp only [List.mem_append, List.mem_cons, List.not_mem_nil, or_false] at h
+    exact h
+
+theorem Basic_Good_of_diags (nroot : Nat) (st st' : PState) (hg : G T nroot st) (h : DiagsOnly st st') :
+    Good T nroot st st' := by
+  unfold DiagsOnly at h
+  refine ⟨?_, ?_, ?_⟩
+  · rw [h]; exact G_diags T nroot st _ hg
+  · rw [h]
+  · rw [h]
+
+theorem errRet_spec (hw : T.WFInv) (nroot : Nat) (st s : PState) (hg : G T nroot st) (hd : DiagsOnly st s)
+    (err : Str) (pos : Nat) (hp : pos < st.latex.length) (b : Buf) (hb : BL T st.latex.length b) :
+    Post ((latexError T.toTables err pos >>= fun e => (pure (e, b) : M (List Tok × Buf))) s) (fun r st' =>
+      Good T nroot st st' ∧ OL T st.latex.length r.1 ∧ BL T st.latex.length r.2) := by
+  have hl := hd.latex
+  apply Post_bind _ _ _ _ _ (latexError_spec T hw err pos s (by rw [hl]; exact hp))
+  intro e s' ⟨ho, hs'⟩
+  have hs'' : DiagsOnly s s' := hs'
+  rw [hl] at ho
+  exact ⟨Basic_Good_of_diags T nroot st s' hg (hd.trans hs''), ho, hb⟩
 
 theorem parseDefMacro_spec (hw : T.WFInv) (nroot : Nat) (buf : Buf) (start : Nat) (st : PState)
     (hg : G T nroot st) (hb : BL T st.latex.length buf) (hs : start < st.latex.length) :
     Post (parseDefMacro T buf start st) (fun r st' =>
       Good T nroot st st' ∧ OL T st.latex.length r.1 ∧ BL T st.latex.length r.2) := by
-  sorry
+  have hsk := BL_skipSpace T _ buf hb
+  simp only [parseDefMacro]
+  generalize skipSpace buf = b at hsk ⊢
+  cases b with
+  | nil =>
+    exact errRet_spec T hw nroot st st hg (DiagsOnly.refl st) _ _ hs _ (Basic_BL_nil T _)
+  | cons tok rest =>
+    obtain ⟨htok, hrest⟩ := (Basic_BL_cons T _ _ _).1 hsk
+    simp only []
+    split
+    · exact errRet_spec T hw nroot st st hg (DiagsOnly.refl st) _ _ htok.1.1 _ hsk
+    · cases hda : defArgs (rest.length + 1) rest [] with
+      | none => exact errRet_spec T hw nroot st st hg (DiagsOnly.refl st) _ _ hs _ (Basic_BL_nil T _)
+      | some ab =>
+        obtain ⟨args, buf1⟩ := ab
+        simp only []
+        obtain ⟨m1, m2⟩ := defArgs_mem _ _ _ _ _ hda
+        have hargs : ∀ t ∈ args, BTok T st.latex.length t := by
+          intro t ht
+          rcases m1 t ht with h' | h'
+          · cases h'
+          · exact hrest t h'
+        have hbuf1 : BL T st.latex.length buf1 := fun t ht => hrest t (m2 t ht)
+        have hp : (match buf1.head? with | some t => t.pos | none => start) < st.latex.length := by
+          split
+          · rename_i t ht; exact (hbuf1 t (List.mem_of_mem_head? ht)).1.1
+          · exact hs
+        apply Post_bind _ _ _ _ _ (argBuffer_spec T hw buf1 _ true st hbuf1 hp)
+        intro r s ⟨h1, _, h3, h4⟩
+        have hd : DiagsOnly st s := h4
+        cases hpm : defArgPosMap args 1 1 [] with
+        | error t =>
+          exact errRet_spec T hw nroot st s hg hd _ _ (hargs t (defArgPosMap_err _ _ _ _ _ hpm)).1.1 _ h3
+        | ok map =>
+          simp only []
+          have hst : ∀ t ∈ r.1, storedOk T t = true := fun t ht => BTok_storedOk T _ t (h1 t ht)
+          obtain ⟨e1, e2⟩ := defMapRepl_spec T map r.1 [] hst (by simp)
+          cases hmr : defMapRepl map r.1 [] with
+          | error t =>
+            exact errRet_spec T hw nroot st s hg hd _ _ (h1 t (e1 t hmr)).1.1 _ h3
+          | ok repl =>
+            simp only []
+            apply Post_bind _ _ _ (fun _ s' => Good T nroot st s') _ (Post_modify _ _ _ ?_)
+            · intro _ s' hgs
+              exact ⟨hgs, OL_single T _ _ (OTok_mkAction T _ start hs), h3⟩
+            · obtain ⟨hgs, hsame⟩ := Basic_Good_of_diags T nroot st s hg hd
+              refine ⟨{ flows := hgs.flows, macros := ?_, envs := hgs.envs, gloss := hgs.gloss,
+                        root := hgs.root, inFrame := hgs.inFrame }, hsame⟩
+              intro m hm
+              simp only [List.mem_append] at hm
+              rcases hm with hm | hm
+              · rcases setMacro_mem _ _ _ hm with hm | rfl
+                · exact hgs.macros m (by simp [hm])
+                · simp only [macroToksOk, List.all_nil, Bool.and_true, List.all_eq_true]
+                  exact e2 repl hmr
+              · exact hgs.macros m (by simp [hm])
 
 theorem expandShortMacro_spec (n : Nat) (st : PState) (tok : Tok) (rest : Buf)
     (ht : BTok T n tok) (hk : outKind tok = true) (hb : BL T n rest) :
     OTok T n (expandShortMacro T st tok rest).1 ∧ BL T n (expandShortMacro T st tok rest).2 := by
-  sorry
+  have hto : OTok T n tok := ⟨ht.1, hk⟩
+  unfold expandShortMacro
+  split
+  · exact ⟨hto, Basic_BL_nil T n⟩
+  · rename_i cur rest'
+    simp only []
+    split
+    · exact ⟨hto, hb⟩
+    · exact ⟨OTok_mkFix T n _ .text _ ht.1.1 (Or.inl rfl), ((Basic_BL_cons T n _ _).1 hb).2⟩
 
 theorem expandVerbEnvToken_BL (hw : T.WFInv) (n : Nat) (t : Tok) (h : BTok T n t) (hk : t.kind = .verb true) :
     BL T n (expandVerbEnvToken t) := by
-  sorry
+  obtain ⟨⟨hp, hext, _, _⟩, _⟩ := h
+  have hext' : t.fix = false → t.pos + t.txt.length + 14 ≤ n := by
+    intro hf; have := hext hf; simp only [extent, hk] at this; omega
+  obtain ⟨v1, hv1, hl1⟩ := hw.special_small ['{'] (by simp)
+  obtain ⟨v2, hv2, hl2⟩ := hw.special_small ['}'] (by simp)
+  have he : (if t.fix = true then t.pos else t.pos + t.txt.length) < n := by
+    split
+    · exact hp
+    · rename_i hf; have := hext' (by simpa using hf); omega
+  have hee : t.fix = false → (if t.fix = true then t.pos else t.pos + t.txt.length) + 14 ≤ n := by
+    intro hf; have := hext' hf; simp [hf]; omega
+  intro x hx
+  simp only [expandVerbEnvToken, List.mem_cons, List.not_mem_nil, or_false] at hx
+  rcases hx with rfl | rfl | rfl | rfl | rfl | rfl | rfl | rfl | rfl
+  · exact ⟨⟨hp, fun hf => by simp [extent]; omega, rfl, rfl⟩, rfl⟩
+  · exact ⟨⟨hp, fun hf => by simp [extent, hv1]; omega, rfl, rfl⟩, rfl⟩
+  · exact ⟨⟨hp, fun hf => by have := hext' hf; simp [extent]; omega, rfl, rfl⟩, rfl⟩
+  · exact ⟨⟨hp, fun hf => by simp [extent, hv2]; omega, rfl, rfl⟩, rfl⟩
+  · exact ⟨⟨hp, fun hf => by have := hext' hf; simp [extent]; omega, rfl, rfl⟩, rfl⟩
+  · exact ⟨⟨he, fun hf => by simp [extent]; omega, rfl, rfl⟩, rfl⟩
+  · exact ⟨⟨he, fun hf => by have := hee hf; simp [extent, hv1]; omega, rfl, rfl⟩, rfl⟩
+  · exact ⟨⟨he, fun hf => by have := hee hf; simp [extent]; omega, rfl, rfl⟩, rfl⟩
+  · exact ⟨⟨he, fun hf => by have := hee hf; simp [extent, hv2]; omega, rfl, rfl⟩, rfl⟩
 
 /-! ### blank-line removal and scanner -/
 
+theorem LinesRel_pred (P : Tok → Prop) (hF : ∀ t, P t → P (trimFirst t)) (hL : ∀ t, P t → P (trimLast t))
+    (hS : ∀ t, P t → P (sentinel t.pos)) (items : List LItem) (r : List Tok) (hrel : LinesRel items r)
+    (h : ∀ i ∈ items, P i.tok) : ∀ t ∈ r, P t := by
+  induction hrel with
+  | nil => simp
+  | skip t rest r hcs _ ih =>
+    intro x hx
+    simp only [List.mem_cons] at hx
+    rcases hx with rfl | hx
+    · exact h t (by simp)
+    · exact ih (fun i hi => h i (by simp [hi])) x hx
+  | one t hcs => intro x hx; simp at hx; subst hx; exact h t (by simp)
+  | remove t mid lst rest' r hcs hm hx hb hany _ ih =>
+    intro x hx'
+    simp only [List.mem_cons, List.mem_append, List.mem_filter, List.mem_map] at hx'
+    rcases hx' with rfl | ⟨⟨i, hi, rfl⟩, _⟩ | hx'
+    · exact hF _ (h t (by simp))
+    · apply h i
+      simp only [List.mem_cons, List.mem_append, List.not_mem_nil, or_false] at hi ⊢
+      rcases hi with rfl | hi | rfl <;> simp [*]
+    · refine ih ?_ x hx'
+      intro i hi
+      simp only [List.mem_cons] at hi
+      rcases hi with rfl | rfl | hi
+      · simpa using hS _ (hL _ (h lst (by simp)))
+      · simpa using hL _ (h lst (by simp))
+      · exact h i (by simp [hi])
+  | keep t mid lst rest' r hcs hm hx hb _ ih =>
+    intro x hx'
+    simp only [List.mem_cons, List.mem_append, List.mem_map] at hx'
+    rcases hx' with rfl | ⟨i, hi, rfl⟩ | hx'
+    · exact h t (by simp)
+    · exact h i (by simp [hi])
+    · refine ih ?_ x hx'
+      intro i hi
+      simp only [List.mem_cons] at hi
+      rcases hi with rfl | hi
+      · simpa using h lst (by simp)
+      · exact h i (by simp [hi])
+
+/-- invariant of the work list of `remove_pure_action_lines`: like `OTok`, but a non-fixed
+    token that has lost all its text may sit at position `n` (it is dropped at the end) -/
+def LTok (n : Nat) (t : Tok) : Prop :=
+  outKind t = true ∧ ctlEmpty t = true ∧ (t.fix = false → t.pos + t.txt.length ≤ n) ∧
+  ((t.fix = true ∨ isLang t = true) → t.pos < n)
+
+theorem outKind_mbOk (t : Tok) (h : outKind t = true) : mbOk T t = true := by
+  unfold outKind at h
+  unfold mbOk
+  split <;> simp_all
+
+theorem LTok_of_OTok (n : Nat) (t : Tok) (h : OTok T n t) : LTok n t := by
+  refine ⟨h.2, h.1.2.2.1, fun hf => ?_, fun _ => h.1.1⟩
+  have := h.1.2.1 hf
+  rw [extent_outKind T t h.2] at this
+  exact this
+
+theorem OTok_of_LTok (n : Nat) (t : Tok) (h : LTok n t) (hk : keepOut t = true) : OTok T n t := by
+  obtain ⟨h1, h2, h3, h4⟩ := h
+  refine ⟨⟨?_, fun hf => by rw [extent_outKind T t h1]; exact h3 hf, h2, outKind_mbOk T t h1⟩, h1⟩
+  cases hf : t.fix with
+  | true => exact h4 (Or.inl hf)
+  | false =>
+    cases hl : isLang t with
+    | true => exact h4 (Or.inr hl)
+    | false =>
+      simp only [keepOut, hl, Bool.or_false, Bool.not_eq_eq_eq_not, Bool.not_true,
+        List.isEmpty_eq_false_iff] at hk
+      have := h3 hf
+      have : 0 < t.txt.length := List.length_pos_iff.2 hk
+      omega
+
+theorem LTok_sentinel (n p : Nat) (h : p ≤ n) : LTok n (sentinel p) := by
+  refine ⟨rfl, rfl, fun _ => by simpa [sentinel] using h, fun hh => ?_⟩
+  rcases hh with hh | hh <;> simp [sentinel, isLang] at hh
+
+theorem LTok_pos_le (n : Nat) (t : Tok) (h : LTok n t) : t.pos ≤ n := by
+  cases hf : t.fix with
+  | true => exact Nat.le_of_lt (h.2.2.2 (Or.inl hf))
+  | false => have := h.2.2.1 hf; omega
+
+theorem LTok_sentinel_of (n : Nat) (t : Tok) (h : LTok n t) : LTok n (sentinel t.pos) :=
+  LTok_sentinel n _ (LTok_pos_le n t h)
+
+theorem ctlEmpty_shrink (t u : Tok) (hk : u.kind = t.kind) (hl : u.txt.length ≤ t.txt.length)
+    (h : ctlEmpty t = true) : ctlEmpty u = true := by
+  unfold ctlEmpty at h ⊢
+  rw [hk]
+  split <;> simp_all
+
+theorem LTok_trimFirst (n : Nat) (t : Tok) (h : LTok n t) : LTok n (trimFirst t) := by
+  obtain ⟨h1, h2, h3, h4⟩ := h
+  have hl := trimFirst_txt_length t
+  refine ⟨h1, ctlEmpty_shrink t _ rfl hl h2, fun hf => ?_, h4⟩
+  have := h3 hf
+  show t.pos + (trimFirst t).txt.length ≤ n
+  omega
+
+theorem trimLast_len (t : Tok) :
+    (trimLast t).txt.length ≤ t.txt.length ∧
+    (t.fix = false → (trimLast t).pos + (trimLast t).txt.length = t.pos + t.txt.length) ∧
+    (t.fix = true → (trimLast t).pos = t.pos) ∧ (t.txt = [] → (trimLast t).pos = t.pos) := by
+  by_cases hn : hasNl t.txt = true
+  · have hs := congrArg List.length (split_first t.txt hn)
+    simp only [List.length_append, List.length_cons] at hs
+    have hne : t.txt ≠ [] := by intro e; rw [e] at hn; simp [hasNl] at hn
+    simp only [trimLast, hn, if_true]
+    refine ⟨by omega, fun hf => by simp [hf]; omega, fun hf => by simp [hf], fun e => absurd e hne⟩
+  · simp only [trimLast, hn]
+    refine ⟨by simp, fun hf => by simp [hf], fun hf => by simp [hf], fun e => by simp [e]⟩
+
+theorem LTok_trimLast (n : Nat) (t : Tok) (h : LTok n t) : LTok n (trimLast t) := by
+  obtain ⟨h1, h2, h3, h4⟩ := h
+  obtain ⟨l1, l2, l3, l4⟩ := trimLast_len t
+  refine ⟨h1, ctlEmpty_shrink t _ rfl l1 h2, fun hf => ?_, fun hh => ?_⟩
+  · have hf' : t.fix = false := hf
+    rw [l2 hf']; exact h3 hf'
+  · rcases hh with hh | hh
+    · have hf' : t.fix = true := hh
+      rw [l3 hf']; exact h4 (Or.inl hf')
+    · have hl' : isLang t = true := hh
+      have : t.txt = [] := by
+        unfold isLang at hl'
+        unfold ctlEmpty at h2
+        split at h2 <;> simp_all
+      rw [l4 this]; exact h4 (Or.inr hl')
+
 theorem removeLines_OL (n : Nat) (ts out : List Tok) (h : OL T n ts) (hr : removeLines ts = some out) :
     OL T n out := by
-  sorry
+  obtain ⟨r, hrel, rfl⟩ := removeLines_rel ts out hr
+  intro t ht
+  simp only [List.mem_filter] at ht
+  refine OTok_of_LTok T n t ?_ ht.2
+  refine LinesRel_pred (LTok n) (LTok_trimFirst n) (LTok_trimLast n) (LTok_sentinel_of n) _ r hrel ?_ t ht.1
+  intro i hi
+  simp only [linesInit, List.mem_cons, List.mem_append, List.mem_map, List.mem_filter,
+    List.not_mem_nil, or_false] at hi
+  rcases hi with (rfl | ⟨u, hu, rfl⟩) | rfl
+  · exact LTok_sentinel n 0 (Nat.zero_le _)
+  · rw [evalTok_tok]; exact LTok_of_OTok T n u (h u hu.1)
+  · refine LTok_sentinel n _ ?_
+    split
+    · rename_i u hu
+      have := List.mem_of_getLast? hu
+      simp only [List.mem_filter] at this
+      exact Nat.le_of_lt (h u this.1).1.1
+    · exact Nat.zero_le _
+
+/-- token classes the scanner produces -/
+def scanKind (k : Kind) : Bool :=
+  match k with
+  | .action | .void | .lang .. | .mathBegin _ | .mathElem | .mathOper | .mathSpace => false
+  | _ => true
+
+theorem scanKind_ctlEmpty (t : Tok) (h : scanKind t.kind = true) : ctlEmpty t = true := by
+  unfold scanKind at h
+  unfold ctlEmpty
+  split <;> simp_all
+
+theorem scanKind_mbOk (t : Tok) (h : scanKind t.kind = true) : mbOk T t = true := by
+  unfold scanKind at h
+  unfold mbOk
+  split <;> simp_all
+
+theorem scanKind_notMath (t : Tok) (h : scanKind t.kind = true) : isMathTok t = false := by
+  unfold scanKind at h
+  unfold isMathTok
+  split <;> simp_all
+
+theorem specialVal_len (hw : T.WFInv) (k : Str) : ((T.toTables.specialVal k).getD k).length ≤ k.length := by
+  unfold Tables.specialVal
+  cases hf : T.special.find? (·.1 == k) with
+  | none => simp
+  | some kv =>
+    have hm := List.mem_of_find?_eq_some hf
+    have hp := List.find?_some hf
+    simp only [beq_iff_eq] at hp
+    have := hw.special_len kv hm
+    simp only [Option.map_some, Option.getD_some]
+    rw [← hp]; exact this
+
+/-- except for verbatim-environment tokens a token never claims more than its text -/
+theorem extent_le (hw : T.WFInv) (t : Tok) (h : t.kind ≠ .verb true) : extent T t ≤ t.txt.length := by
+  unfold extent
+  split
+  all_goals first
+    | exact specialVal_len T hw _
+    | exact absurd ‹_› h
+    | exact Nat.zero_le _
+    | exact Nat.le_refl _
+
+/-- what `Proofs/Scanner.lean` does not record: the class of a scanner token, and the room
+    behind a verbatim-environment token for its `\end{verbatim}` -/
+def G2 (start : Nat) (s : ScanStep) : Prop :=
+  scanKind s.tok.kind = true ∧
+  (s.tok.kind = .verb true → s.tok.pos + s.tok.txt.length + 14 ≤ start + s.len)
+
+theorem G2_simple (start : Nat) (s : ScanStep) (h1 : scanKind s.tok.kind = true) (h2 : s.tok.kind ≠ .verb true) :
+    G2 start s := ⟨h1, fun h => absurd h h2⟩
+
+theorem errTok_kind (T' : Tables) (e : Str) (p n : Nat) :
+    ((latexErrorToks T' e p n).headD default).kind = .text := by
+  unfold latexErrorToks
+  simp only []
+  split <;> rfl
+
+theorem G2_err (T' : Tables) (start : Nat) (e : Str) (p n k : Nat) (d : Option Diag) :
+    G2 start { tok := (latexErrorToks T' e p n).headD default, len := k, diag := d } :=
+  G2_simple _ _ (by show scanKind (_ : Tok).kind = true; rw [errTok_kind]; rfl)
+    (by show ¬ (_ : Tok).kind = _; rw [errTok_kind]; simp)
+
+theorem scanVerb_G2 (T' : Tables) (src : Str) (start : Nat) (rest : Str) : G2 start (scanVerb T' src start rest) := by
+  unfold scanVerb
+  simp only []
+  split
+  · exact G2_err ..
+  · split
+    · exact G2_err ..
+    · split
+      · exact G2_err ..
+      · exact G2_simple _ _ rfl (by simp)
+
+theorem scanVerbatim_G2 (T' : Tables) (src : Str) (start : Nat) (rest : Str) :
+    G2 start (scanVerbatim T' src start rest) := by
+  unfold scanVerbatim
+  simp only []
+  split
+  · exact G2_simple _ _ rfl (by simp)
+  · split
+    · exact G2_err ..
+    · refine ⟨rfl, fun _ => ?_⟩
+      simp only [List.length_take]
+      omega
+
+theorem scanMacro_G2 (T' : Tables) (src : Str) (start : Nat) (rest : Str) : G2 start (scanMacro T' src start rest) := by
+  unfold scanMacro
+  simp only []
+  split
+  · exact scanVerbatim_G2 ..
+  · split
+    · exact G2_simple _ _ rfl (by simp)
+    · split
+      · exact G2_simple _ _ rfl (by simp)
+      · split
+        · exact scanVerb_G2 ..
+        · split
+          · exact G2_simple _ _ rfl (by simp)
+          · exact G2_simple _ _ rfl (by simp)
+
+theorem nextToken_G2 (T' : Tables) (src : Str) (start : Nat) (rest : Str) : G2 start (nextToken T' src start rest) := by
+  unfold nextToken
+  split
+  · exact G2_simple _ _ rfl (by decide)
+  · split
+    · refine G2_simple _ _ ?_ ?_
+      · simp only [scanSpace]; split <;> rfl
+      · simp only [scanSpace]; split <;> simp
+    · split
+      · exact G2_simple _ _ rfl (by simp [scanComment])
+      · split
+        · unfold scanArgToken
+          split
+          · exact G2_simple _ _ rfl (by simp)
+          · split
+            · exact G2_simple _ _ rfl (by simp)
+            · exact G2_simple _ _ rfl (by simp)
+        · split
+          · exact G2_simple _ _ rfl (by simp)
+          · split
+            · exact scanMacro_G2 ..
+            · exact G2_simple _ _ rfl (by simp)
 
 /-- every scanner token is a buffer token of the scanned text -/
 theorem scan_BL (hw : T.WFInv) (src : Str) : BL T src.length (scan T.toTables src).toks := by
-  sorry
+  intro t ht
+  obtain ⟨p, r, hr, hd, hl, rfl⟩ := ScannerAux.scan_steps T.toTables hw.scan src t ht
+  have hg := ScannerAux.nextToken_good T.toTables hw.scan src p r hr
+  obtain ⟨hk, hv⟩ := nextToken_G2 T.toTables src p r
+  have h2 := hg.len_le
+  have hrl : 1 ≤ r.length := by
+    cases r with
+    | nil => exact absurd rfl hr
+    | cons => simp
+  refine ⟨⟨?_, ?_, scanKind_ctlEmpty _ hk, scanKind_mbOk T _ hk⟩, scanKind_notMath _ hk⟩
+  · by_cases hdg : (nextToken T.toTables src p r).diag = none
+    · obtain ⟨a, b, c, d, _⟩ := hg.ok hdg
+      omega
+    · obtain ⟨a, b, _⟩ := hg.err hdg
+      omega
+  · intro hf
+    by_cases hdg : (nextToken T.toTables src p r).diag = none
+    · obtain ⟨a, b, c, d, _⟩ := hg.ok hdg
+      by_cases hvb : (nextToken T.toTables src p r).tok.kind = .verb true
+      · have := hv hvb
+        simp only [extent, hvb]
+        omega
+      · have := extent_le T hw _ hvb
+        omega
+    · obtain ⟨a, _⟩ := hg.err hdg
+      rw [a] at hf; cases hf
+
+theorem scan_storedOk (hw : T.WFInv) (src : Str) : (scan T.toTables src).toks.all (storedOk T) = true := by
+  rw [List.all_eq_true]
+  intro t ht
+  exact BTok_storedOk T _ t (scan_BL T hw src t ht)
 
 /-- `init_extractions` keeps the frame-independent invariant -/
 theorem initExtractions_G0 (hw : T.WFInv) (nroot : Nat) (st : PState) (ex : List Str) (h : G0 T nroot st) :
     G0 T nroot (initExtractions T st ex) := by
-  sorry
+  refine { flows := h.flows, macros := ?_, envs := h.envs, gloss := h.gloss }
+  intro m hm
+  simp only [initExtractions, List.mem_append, List.mem_map] at hm
+  rcases hm with (⟨m0, hm0, rfl⟩ | ⟨nm, _, rfl⟩) | hm
+  · have h0 := h.macros m0 (by simp [hm0])
+    simp only [macroToksOk, Bool.and_eq_true] at h0
+    split
+    · simp only [macroToksOk, List.all_nil, Bool.true_and, Bool.and_eq_true]
+      refine ⟨h0.1.2, ?_⟩
+      split
+      · exact scan_storedOk T hw _
+      · rfl
+    · simp only [macroToksOk, List.all_nil, Bool.true_and, Bool.and_true]
+      exact h0.1.2
+  · simp only [macroToksOk, List.all_nil, Bool.true_and]
+    exact scan_storedOk T hw _
+  · exact h.macros m (by simp [hm])
 
 /-- the skip pre-pass only drops tokens -/
 theorem skipPass_BL (n : Nat) (st : PState) (fuel : Nat) (toks out : List Tok)
     (ht : BL T n toks) (ho : BL T n out) :
     BL T n (skipPass st fuel toks out).1 ∧ BL T n (skipPass st fuel toks out).2.2 ∧
     (∀ p, (skipPass st fuel toks out).2.1 = some p → p < n) := by
-  sorry
+  induction fuel generalizing toks out with
+  | zero => exact ⟨ho, Basic_BL_nil T n, fun p h => by simp [skipPass] at h⟩
+  | succ fuel ih =>
+    simp only [skipPass]
+    have hpre : ∀ f : Tok → Bool, BL T n (out ++ toks.takeWhile f) := fun f =>
+      (BL_append T n _ _).2 ⟨ho, BL_sublist T n _ _ (List.takeWhile_sublist _) ht⟩
+    split
+    · exact ⟨hpre _, Basic_BL_nil T n, fun p h => by simp at h⟩
+    · rename_i b after heq
+      have hba : BL T n (b :: after) := by
+        rw [← heq]; exact BL_sublist T n _ _ (List.drop_sublist _ _) ht
+      rw [Basic_BL_cons] at hba
+      split
+      · refine ⟨hpre _, hba.2, fun p h => ?_⟩
+        simp only [Option.some.injEq] at h
+        subst h; exact hba.1.1.1
+      · rename_i e rest heq2
+        refine ih rest _ ?_ (hpre _)
+        have : BL T n (e :: rest) := by
+          rw [← heq2]; exact BL_sublist T n _ _ (List.drop_sublist _ _) hba.2
+        exact ((Basic_BL_cons T n _ _).1 this).2
 
 end Yalafi
